@@ -41,7 +41,10 @@ MANIFEST = {
             "returned, stored-and-returned, or handed to the one process_action_response, which only appends the history item — "
             "C05_gen_response_only_recorded), and no function of game/ that reads a recorded response has an attribute path into the "
             "simulation (C05_gen_callers_do_not_touch_simulation_on_refusal); rig R-callers: a step in which the agent's action is refused "
-            "leaves the simulation, then and two steps later, as the same step with do-nothing does. "
+            "leaves the simulation, then and two steps later, as the same step with do-nothing does. Rig R-boundary: every numeric / "
+            "enumerated / name option of every action type at its boundary values (ACL position around max_acl_rules, NIC / port numbers "
+            "around the count, ports 0 / 65535 / 65536, empty and 300-character names), schema-refused values re-sent raw, real handlers: "
+            "an exception out of apply_request or an undocumented status is a violation with the request as replay. "
             "Ties: Gen/RequestCore (shape of __call__/check_valid, unhashable-key guard), Gen/RequestSchema, Gen/ActionTemplates, "
             "Gen/RequestValidators, Gen/RequestCallers; rigs R-req (live trees at perturbed states incl. powered-off network devices: status, depth, handler, "
             "#args vs the model; route mutations incl. unhashable / None / float / bool elements, empty and over-long requests; every "
@@ -529,6 +532,14 @@ def run(ctx: Ctx):
     except Exception as e:
         ctx.notes.append(f"R-callers not run: {type(e).__name__}: {str(e)[:120]}")
     _stage(ctx, "R-callers", t0)
+    t0 = time.time()
+    # R-boundary: every numeric / enumerated / name option of every action type at its boundary values, real handlers, nodes ON
+    from harness.rigs import request_boundary as rbound
+    try:
+        rbound.run(ctx, scenarios(ctx), registry())
+    except Exception as e:
+        ctx.notes.append(f"R-boundary not run: {type(e).__name__}: {str(e)[:120]}")
+    _stage(ctx, "R-boundary", t0)
     t0 = time.time()
     # static part: schematic request tree (E4) x action templates (E5): C05_action_templates_resolve & co (Props/C05Schema.lean)
     from harness.props import c05x
